@@ -19,6 +19,8 @@ subset of the keys written from bytes values; (b) the payload markers written by
 (IllegalMergeDirectivePayload); the two format strings differ and each class writes its own; (c) bundle format 4: the
 record kinds the BundleWriter emits (literals handed to the add_*_record helpers) are within the kinds the container
 encoder accepts, and every one is handled by RevisionInstaller._install_in_write_group.
+Added while testing against seeded changes: Also: decode_name(encode_name(kind, rev, file)) round-trips for ids with
+'/' (abstract evaluation); _verify_patch's normalising substitutions only rewrite line ends.
 Does not decide: testament equality of the installed revisions; detection of a tampered patch (hash checks are value
 computations).
 """
